@@ -45,7 +45,11 @@ def trajectory(mk, f, cfl, nsteps, directives={}):
 
 
 def rand_tsave(rng, t0, dt, T):
-    kind = int(rng.integers(6))
+    kind = int(rng.integers(8))
+    if kind == 6:      # the start time is the ONLY save time (the run goes on to a later stop)
+        return [float(t0)], kind
+    if kind == 7:      # ... or the last one, after times in the past
+        return sorted([float(t0 - x) for x in rng.uniform(0.01, 1, 2)]) + [float(t0)], kind
     if kind == 0:      # evenly spaced, much larger than dt
         ts = list(np.linspace(t0, t0 + T, int(rng.integers(2, 5)))[1:])
     elif kind == 1:    # includes the start time
@@ -114,6 +118,15 @@ def oracle(ctx, seeds=None):
             stop = {'maxit': stop['maxit'], 'tottime': stop['tottime']}
             if i % 2:
                 tsave = []               # no save times: the criteria are exactly the caller's, in the caller's order
+        if kind in (6, 7) and stop is None:
+            stop = {'tottime': t0 + T}            # the start time is not where the run ends
+        if i % 9 == 4:
+            # criteria whose VALUE is zero: a stop time of exactly 0.0 (start at a negative time), maxit = 0
+            if i % 2:
+                t0 = -float(dt0 * rng.integers(2, 6)); f0.time = t0
+                tsave = [float(t0 + 0.5 * dt0), 0.0, float(1.5 * dt0)]; stop = {'tottime': 0.0}
+            else:
+                stop = {'maxit': 0}
         stop_keep = None if stop is None else dict(stop)
         use_restart = (i % 5 == 0)
         rp = dict(cfg=cfg, integrator=name, cfl=cfl, t0=t0, it0=f0.it, tsave=tsave, stop=stop, restart=use_restart)
@@ -180,6 +193,8 @@ def oracle(ctx, seeds=None):
         got = [q for q in results]
         if len(expected) == 0:
             # no requested time in the window: the final state is returned
+            if nit == 0 and len(got) == 0:
+                continue          # nothing requested in the (empty) window and no step taken (maxit = 0): nothing to return
             if not (len(got) >= 1):
                 res.fail(key + ':no-result', "empty result list", rp)
             elif all(float(q.time) not in tsave for q in got) and not (len(got) == 1 and same_field(got[0], s.Qn)):
